@@ -49,6 +49,11 @@ def uninstall():
         setattr(cls, name, real)
 
 
+def rests(book, o):
+    """identity membership (Order.__eq__ refuses to compare across sides)"""
+    return any(x is o for x in book.priority_queue)
+
+
 def rank_key(o):
     return (0 if o.price is None else 1, 0 if o.price is None else (-o.price if o.is_buy else o.price), o.placed_at, o.order_id)
 
@@ -256,7 +261,130 @@ def install_matching():
     wrap(Market, "_execution", pre, post, on_raise)
 
 
-INSTALLERS = {"market_price": install_market_price, "events": install_events, "matching": install_matching}
+# ----------------------------------------------------------------------------- Market mutators (C04, C06, C08, C10, C19)
+def _series(m):
+    return dict(mp=list(m._market_prices), mid=list(m._mid_prices), le=list(m._last_executed_prices), f=list(m._fundamental_prices),
+                ev=list(m._executed_volumes), et=list(m._executed_total_prices), nb=list(m._n_buy_orders), ns=list(m._n_sell_orders))
+
+
+def _records(m):
+    return None if m.logger is None else list(m.logger.pending_logs)
+
+
+def install_market_ops():
+    import math as _math
+
+    def ao_pre(m, order):
+        return dict(price=order.price, is_buy=order.is_buy, vol=order.volume, nid=m._next_order_id, t=m.time, ser=_series(m), rec=_records(m), tick=m.tick_size,
+                    nb=len(m.buy_order_book.priority_queue), ns=len(m.sell_order_book.priority_queue))
+
+    def ao_post(m, c, log, order):
+        F = "Market._add_order"
+        p0, p1, tick = c["price"], order.price, c["tick"]
+        if (p0 is None) != (p1 is None):
+            raise ContractViolation(F, "C19 market order keeps price None")
+        if p0 is not None:
+            on_grid = _math.isclose(p0 / tick, round(p0 / tick), abs_tol=1e-9) and p0 % tick == 0
+            if on_grid and p1 != p0:
+                raise ContractViolation(F, "C19 a price on the grid is accepted unchanged", (p0, p1))
+            if c["is_buy"] and not (p1 <= p0 + 1e-9 and p0 - p1 < tick + 1e-9):
+                raise ContractViolation(F, "C19 buy limit price rounds down by less than one tick", (p0, p1, tick))
+            if not c["is_buy"] and not (p1 >= p0 - 1e-9 and p1 - p0 < tick + 1e-9):
+                raise ContractViolation(F, "C19 sell limit price rounds up by less than one tick", (p0, p1, tick))
+        if order.order_id != c["nid"] or m._next_order_id != c["nid"] + 1 or order.placed_at != c["t"]:
+            raise ContractViolation(F, "C04 fresh id, next id advanced, placed now")
+        book = m.buy_order_book if c["is_buy"] else m.sell_order_book
+        if not rests(book, order) or len(m.buy_order_book.priority_queue) != c["nb"] + (1 if c["is_buy"] else 0) or len(m.sell_order_book.priority_queue) != c["ns"] + (0 if c["is_buy"] else 1):
+            raise ContractViolation(F, "C04 the order rests on its side; the other side untouched")
+        t = c["t"]
+        if m._n_buy_orders[t] != c["ser"]["nb"][t] + (1 if c["is_buy"] else 0) or m._n_sell_orders[t] != c["ser"]["ns"][t] + (0 if c["is_buy"] else 1):
+            raise ContractViolation(F, "C08 per-step order counters: +1 on the order's side only")
+        if (log.order_id, log.market_id, log.time, log.agent_id, log.is_buy, log.kind, log.volume, log.price, log.ttl) != \
+                (order.order_id, order.market_id, t, order.agent_id, order.is_buy, order.kind, c["vol"], order.price, order.ttl):
+            raise ContractViolation(F, "C10 the returned OrderLog carries the accepted order's values")
+        if c["rec"] is not None and [id(x) for x in m.logger.pending_logs] != [id(x) for x in c["rec"]] + [id(log)]:
+            raise ContractViolation(F, "C10 exactly one record (the OrderLog) is handed to the logger")
+    wrap(Market, "_add_order", ao_pre, ao_post)
+
+    def ut_pre(m, next_fundamental_price):
+        t = m.time
+        due = lambda b: [o for o in b.priority_queue if o.ttl is not None and o.placed_at + o.ttl < t + 1]
+        return dict(t=t, ser=_series(m), rec=_records(m), running=m._is_running, dueB=due(m.buy_order_book), dueS=due(m.sell_order_book),
+                    restB=list(m.buy_order_book.priority_queue), restS=list(m.sell_order_book.priority_queue), vols={id(o): o.volume for o in m.buy_order_book.priority_queue + m.sell_order_book.priority_queue})
+
+    def ut_post(m, c, res, next_fundamental_price):
+        F = "Market._update_time"
+        t0, t1 = c["t"], c["t"] + 1
+        if m.time != t1 or m.buy_order_book.time != t1 or m.sell_order_book.time != t1:
+            raise ContractViolation(F, "C06 the clock advances by exactly one, for the market and both of its books")
+        now = _series(m)
+        for k, old in c["ser"].items():
+            if now[k][:t0 + 1] != old[:t0 + 1]:
+                raise ContractViolation(F, "C06 values recorded for past times are unchanged", k)
+        if m._fundamental_prices[t1] != next_fundamental_price:
+            raise ContractViolation(F, "C06 the fundamental price handed in is recorded for the new time")
+        if t1 > 0:
+            le0, mid0, mp0 = c["ser"]["le"][t0], c["ser"]["mid"][t0], c["ser"]["mp"][t0]
+            if m._last_executed_prices[t1] != le0 or m._mid_prices[t1] != mid0:
+                raise ContractViolation(F, "C08 last-trade and mid price are carried into the new slot")
+            exp = (le0 if le0 is not None else (mid0 if mid0 is not None else mp0)) if c["running"] else mp0
+            if m._market_prices[t1] != exp:
+                raise ContractViolation(F, "C08 market price in the new slot: last trade, else mid, else previous while running; carried unchanged while not running", (m._market_prices[t1], exp))
+        if m._executed_volumes[t1] != 0 or m._executed_total_prices[t1] != 0 or m._n_buy_orders[t1] != 0 or m._n_sell_orders[t1] != 0:
+            raise ContractViolation(F, "C08 counters of the new step start from zero")
+        for book, rest, due in ((m.buy_order_book, c["restB"], c["dueB"]), (m.sell_order_book, c["restS"], c["dueS"])):
+            if sorted(id(o) for o in book.priority_queue) != sorted(id(o) for o in rest if not any(o is d_ for d_ in due)):
+                raise ContractViolation(F, "C04 an order leaves its book exactly when the clock passes placed_at + ttl")
+        if c["rec"] is not None:
+            new = m.logger.pending_logs[len(c["rec"]):]
+            exp = [(o.order_id, c["vols"][id(o)]) for o in c["dueB"]] + [(o.order_id, c["vols"][id(o)]) for o in c["dueS"]]
+            got = [(x.order_id, x.volume) for x in new]
+            if sorted(got) != sorted(exp) or any(type(x).__name__ != "ExpirationLog" for x in new):
+                raise ContractViolation(F, "C10 exactly one expiration record per expired order, with its remaining volume (buy side then sell side)", dict(expected=exp, got=got))
+    wrap(Market, "_update_time", ut_pre, ut_post)
+
+    def co_pre(m, cancel):
+        o = cancel.order
+        return dict(vol=o.volume, rec=_records(m), t=m.time, inB=rests(m.buy_order_book, o), inS=rests(m.sell_order_book, o),
+                    nB=len(m.buy_order_book.priority_queue), nS=len(m.sell_order_book.priority_queue))
+
+    def co_post(m, c, log, cancel):
+        F = "Market._cancel_order"
+        o = cancel.order
+        if not o.is_canceled or rests(m.buy_order_book, o) or rests(m.sell_order_book, o):
+            raise ContractViolation(F, "C04 the order is marked cancelled and rests in no book afterwards")
+        if len(m.buy_order_book.priority_queue) != c["nB"] - (1 if c["inB"] else 0) or len(m.sell_order_book.priority_queue) != c["nS"] - (1 if c["inS"] else 0):
+            raise ContractViolation(F, "C04 other orders untouched")
+        if (log.order_id, log.volume, log.cancel_time, log.order_time, log.agent_id, log.price) != (o.order_id, c["vol"], c["t"], o.placed_at, o.agent_id, o.price):
+            raise ContractViolation(F, "C10 the CancelLog reports the order's identity and its remaining volume at the cancel time")
+        if c["rec"] is not None and [id(x) for x in m.logger.pending_logs] != [id(x) for x in c["rec"]] + [id(log)]:
+            raise ContractViolation(F, "C10 exactly one record (the CancelLog) is handed to the logger")
+    wrap(Market, "_cancel_order", co_pre, co_post)
+
+    def eo_pre(m, price, volume, buy_order, sell_order):
+        t = m.time
+        return dict(t=t, vb=buy_order.volume, vs=sell_order.volume, ev=m._executed_volumes[t], et=m._executed_total_prices[t], rec=_records(m), running=m._is_running)
+
+    def eo_post(m, c, log, price, volume, buy_order, sell_order):
+        F = "Market._execute_orders"
+        t = c["t"]
+        if not c["running"]:
+            raise ContractViolation(F, "C16 no fill is ever recorded on a market that is not running")
+        if buy_order.volume != c["vb"] - volume or sell_order.volume != c["vs"] - volume:
+            raise ContractViolation(F, "C04 both orders' volumes are reduced by the filled volume")
+        if rests(m.buy_order_book, buy_order) != (buy_order.volume > 0) or rests(m.sell_order_book, sell_order) != (sell_order.volume > 0):
+            raise ContractViolation(F, "C04 an order leaves the book exactly when its volume reaches zero")
+        if m._last_executed_prices[t] != price or m._executed_volumes[t] != c["ev"] + volume or abs(m._executed_total_prices[t] - (c["et"] + volume * price)) > 1e-9:
+            raise ContractViolation(F, "C08 last-trade price / executed volume / turnover of the step grow by the fill")
+        if (log.price, log.volume, log.time, log.buy_order_id, log.sell_order_id, log.buy_agent_id, log.sell_agent_id, log.market_id) != \
+                (price, volume, t, buy_order.order_id, sell_order.order_id, buy_order.agent_id, sell_order.agent_id, m.market_id):
+            raise ContractViolation(F, "C01 the fill record pairs this buy and this sell order at the given price and volume")
+        if c["rec"] is not None and [id(x) for x in m.logger.pending_logs] != [id(x) for x in c["rec"]] + [id(log)]:
+            raise ContractViolation(F, "C10 exactly one record (the ExecutionLog) is handed to the logger")
+    wrap(Market, "_execute_orders", eo_pre, eo_post)
+
+
+INSTALLERS = {"market_price": install_market_price, "events": install_events, "matching": install_matching, "market_ops": install_market_ops}
 
 
 def install(names):
